@@ -65,6 +65,44 @@ fn fallback_snapshot() -> i32 {
     }
 }
 
+/// F-n: a NON-final WAL segment cut at a frame boundary (every remaining frame is intact) is indistinguishable from a
+/// shorter segment: nothing records how many frames a closed segment holds and recovery does not check that sequence
+/// numbers continue from one frame / segment to the next, so strict start-up succeeds without the cut-off entries.
+fn clean_truncation() -> i32 {
+    let tmp = tempfile::TempDir::new().unwrap();
+    let dir = tmp.path();
+    let b = open_new(dir, DistanceMetric::Euclidean, 0, 400);
+    for id in 1..=12u64 { b.insert(id, vec_for(id, 4), HashMap::new()).unwrap(); }
+    let before = census(&b, 1..=12);
+    drop(b);
+    let manifest: serde_json::Value = serde_json::from_str(&std::fs::read_to_string(dir.join("MANIFEST")).unwrap()).unwrap();
+    let segs: Vec<String> = manifest["wal_segments"].as_array().unwrap().iter().map(|s| s.as_str().unwrap().to_string()).collect();
+    if segs.len() < 2 { println!("NOT-REPRODUCED: WAL did not rotate ({} segment)", segs.len()); return 0; }
+    for seg in &segs[..segs.len() - 1] {
+        let p = dir.join(seg);
+        let bytes = std::fs::read(&p).unwrap();
+        if bytes.len() < 4 + 8 { continue; }
+        let len0 = u32::from_le_bytes([bytes[4], bytes[5], bytes[6], bytes[7]]) as usize;
+        let end_first = 4 + 4 + len0 + 4;
+        if bytes.len() <= end_first + 8 { continue; } // need a second frame to lose
+        std::fs::write(&p, &bytes[..end_first]).unwrap(); // keep the header and exactly the first frame
+        return match recover(dir, DistanceMetric::Euclidean) {
+            Err(e) => { println!("NOT-REPRODUCED: strict recovery refused: {}", e); 0 }
+            Ok(r) => {
+                let after = census(&r, 1..=12);
+                if after == before { println!("NOT-REPRODUCED: recovered collection equals pre-damage collection"); 0 }
+                else {
+                    let missing: Vec<u64> = before.iter().zip(after.iter()).filter(|(a, b)| a != b).map(|(a, _)| a.0).collect();
+                    println!("REPRODUCED: strict recovery succeeded after non-final segment {} was cut at a frame boundary; documents missing: {:?}", seg, missing);
+                    1
+                }
+            }
+        };
+    }
+    println!("NOT-REPRODUCED: no non-final segment with two frames");
+    0
+}
+
 /// F-m: the MANIFEST is plain JSON without a checksum and its parser ignores unknown keys: one flipped bit in the KEY
 /// "latest_snapshot" turns it into an unknown key, the (optional) field defaults to None, strict recovery ignores the
 /// snapshot and replays only the WAL segments that compaction left — the documents held only by the snapshot are gone.
@@ -421,6 +459,7 @@ fn main() {
         Some("fallback-snapshot") => fallback_snapshot(),
         Some("midframe-eof") => midframe_eof(),
         Some("manifest-key-flip") => manifest_key_flip(),
+        Some("clean-truncation") => clean_truncation(),
         Some("failed-overwrite") => failed_overwrite(args.get(2).map(|s| s.as_str()).unwrap_or("nan")),
         Some("zero-after-normalize") => zero_after_normalize(),
         Some("prune-breaks-chain") => prune_breaks_chain(),
